@@ -87,8 +87,10 @@ def main():
             return 1
         d = os.path.join(VERIF, "seeded", a.id)
         os.makedirs(d, exist_ok=True)
-        shutil.copy(a.patch, os.path.join(d, "patch.diff"))
-        shutil.copy(a.demo, os.path.join(d, "demo.rs"))
+        if os.path.abspath(a.patch) != os.path.join(d, "patch.diff"):
+            shutil.copy(a.patch, os.path.join(d, "patch.diff"))
+        if os.path.abspath(a.demo) != os.path.join(d, "demo.rs"):
+            shutil.copy(a.demo, os.path.join(d, "demo.rs"))
         head = subprocess.run(["git", "-C", "/repo", "log", "--format=%h", "-1"], capture_output=True, text=True).stdout.strip()
         json.dump(dict(id=a.id, property=a.prop, needs=a.needs, demo_goes_in="%s/tests/" % crate, demo_features=a.features,
                        confirmed_against_repo_commit=head, ran=ran,
